@@ -87,6 +87,13 @@ def _hash_tuple(expr) -> Optional[ast.Tuple]:
     return None
 
 
+def _hash_assign_value(n) -> Optional[ast.AST]:
+    """value of an assignment one of whose targets is self._hash (`x = self._hash = v` included)"""
+    if isinstance(n, ast.Assign) and any(is_attr_of(t, "self", "_hash") for t in n.targets):
+        return n.value
+    return None
+
+
 def _resolve_hash_expr(ctx, expr, obj: str):
     """Return (tuple node, object the fields are read from) for `hash((..))` or a helper-method call returning one."""
     t = _hash_tuple(expr)
@@ -95,9 +102,10 @@ def _resolve_hash_expr(ctx, expr, obj: str):
     if isinstance(expr, ast.Call) and isinstance(expr.func, ast.Attribute) and isinstance(expr.func.value, ast.Name):
         helper = _style(ctx).method(expr.func.attr)
         if helper is not None:
-            rets = returns_of(helper.node)
-            if len(rets) == 1:
-                t = _hash_tuple(rets[0].value)
+            from ..astutil import helper_closed_return
+            closed = helper_closed_return(helper.node)
+            if closed is not None:
+                t = _hash_tuple(closed)
                 if t is not None:
                     return ("helper", t, expr.func.value.id), None
     return None, None
@@ -116,9 +124,9 @@ def _canonical_hash(ctx) -> Tuple[List[str], str]:
     for m in (hm, init):
         for n in walk_local(m.node):
             val = None
-            if isinstance(n, ast.Assign) and len(n.targets) == 1 and is_attr_of(n.targets[0], "self", "_hash"):
-                val = n.value
-            elif isinstance(n, ast.Return) and m is hm and n.value is not None and not is_attr_of(n.value, "self", "_hash"):
+            if _hash_assign_value(n) is not None:
+                val = _hash_assign_value(n)
+            elif isinstance(n, ast.Return) and m is hm and n.value is not None and not is_attr_of(n.value, "self", "_hash") and not isinstance(n.value, ast.Name):
                 val = n.value
             if val is None:
                 continue
@@ -218,19 +226,26 @@ def _routes(ctx) -> List[Route]:
                 continue
             stores: Dict[str, ast.AST] = {}
             stmts: Dict[str, ast.AST] = {}
+            from ..astutil import inline, single_defs
+            sdefs = {k: v for k, v in single_defs(f.node).items() if k != var and not (isinstance(v, ast.Call) and not _pure_expr(v))}
             for n in walk_local(f.node):
                 if isinstance(n, ast.Assign):
                     for t in n.targets:
                         if is_attr_of(t, var):
                             if t.attr in stores:
                                 raise AnalysisError(f"{f.fq}: slot {t.attr} stored twice on the new object")
-                            stores[t.attr] = n.value
+                            stores[t.attr] = inline(n.value, sdefs)
                             stmts[t.attr] = n
                 elif isinstance(n, ast.AnnAssign) and is_attr_of(n.target, var) and n.value is not None:
-                    stores[n.target.attr] = n.value
+                    stores[n.target.attr] = inline(n.value, sdefs)
                     stmts[n.target.attr] = n
             out.append(Route(f, var, stores, stmts))
     return out
+
+
+def _pure_expr(e) -> bool:
+    """temporaries worth inlining: arithmetic / boolean / attribute expressions without calls"""
+    return not any(isinstance(x, (ast.Call, ast.Await, ast.Yield, ast.YieldFrom, ast.NamedExpr)) for x in ast.walk(e))
 
 
 def _is_none(e) -> bool:
@@ -248,14 +263,20 @@ def _lazy_slots(ctx) -> Dict[str, str]:
                     t = n.test
                     if isinstance(t, ast.BoolOp) and isinstance(t.op, ast.Or):
                         t = t.values[0]
+                    left = t.left if isinstance(t, ast.Compare) else None
+                    if isinstance(left, ast.Name):
+                        # `cached = self._slot` ... `if cached is None:` - a local copy of the slot
+                        srcs = [x.value for x in walk_local(f.node) if isinstance(x, ast.Assign) and len(x.targets) == 1 and isinstance(x.targets[0], ast.Name) and x.targets[0].id == left.id and x.lineno < n.lineno]
+                        if len(srcs) == 1 and is_attr_of(srcs[0], "self"):
+                            left = srcs[0]
                     if (
                         isinstance(t, ast.Compare)
                         and len(t.ops) == 1
                         and isinstance(t.ops[0], ast.Is)
-                        and is_attr_of(t.left, "self")
+                        and is_attr_of(left, "self")
                         and _is_none(t.comparators[0])
                     ):
-                        slot = t.left.attr
+                        slot = left.attr
                         # body must store the slot
                         stores = [
                             x for b in n.body for x in ast.walk(b)
@@ -694,6 +715,67 @@ def _sum_elements(expr) -> Optional[List[ast.AST]]:
     return None
 
 
+def _str_table_driven(ctx, strm, bits) -> int:
+    """Second accepted shape of Style.__str__: `for i, name in enumerate(<tuple of names in bit order>)` emitting
+    name / 'not name' under `set & (1 << i)`. Returns the number of attribute words covered (0 if the shape is absent)."""
+    from ..astutil import inline, single_defs
+    sm = strm.module
+    cls = _style(ctx)
+    fdefs = single_defs(strm.node)
+    for lp in walk_local(strm.node):
+        if not (isinstance(lp, ast.For) and isinstance(lp.iter, ast.Call) and norm(lp.iter.func) == "enumerate" and len(lp.iter.args) == 1 and isinstance(lp.target, ast.Tuple) and len(lp.target.elts) == 2):
+            continue
+        tab = lp.iter.args[0]
+        tname = tab.attr if isinstance(tab, ast.Attribute) and norm(tab.value) in ("self", "cls", "Style") else (tab.id if isinstance(tab, ast.Name) else None)
+        tval = None
+        if tname:
+            for st in cls.node.body:
+                if isinstance(st, ast.Assign) and len(st.targets) == 1 and norm(st.targets[0]) == tname:
+                    tval = st.value
+            if tval is None and sm.global_assign_count(tname) == 1:
+                tval = sm.global_assign(tname)
+        if not (isinstance(tval, (ast.Tuple, ast.List)) and all(isinstance(e, ast.Constant) and isinstance(e.value, str) for e in tval.elts)):
+            continue
+        idx, nm = norm(lp.target.elts[0]), norm(lp.target.elts[1])
+        defs = dict(fdefs)
+        defs.pop(idx, None)
+        defs.pop(nm, None)
+
+        def closed(e):
+            return norm(inline(e, defs))
+        BIT = (f"1 << {idx}",)
+        SETS = tuple(f"self._set_attributes & {b}" for b in BIT) + tuple(f"{b} & self._set_attributes" for b in BIT)
+        ONS = tuple(f"self._attributes & {b}" for b in BIT) + tuple(f"{b} & self._attributes" for b in BIT) + (f"getattr(self, {nm})",)
+        appends = [c for c in ast.walk(lp) if isinstance(c, ast.Call) and closed(c.func).endswith(".append") and len(c.args) == 1 and isinstance(c.args[0], ast.IfExp)]
+        if len(appends) != 1:
+            continue
+        ie = appends[0].args[0]
+        neg = closed(ie.orelse)
+        ok_words = closed(ie.test) in ONS and norm(ie.body) == nm and neg in (f"f'not {{{nm}}}'", f"'not ' + {nm}")
+        # guard: `if SET & BIT:` around the append, or `if not SET & BIT: continue` before it
+        guarded = False
+        for x in ast.walk(lp):
+            if isinstance(x, ast.If):
+                t = closed(x.test)
+                if t in SETS and any(c is appends[0] for b in x.body for c in ast.walk(b)):
+                    guarded = True
+                if t in tuple(f"not {g_}" for g_ in SETS) and x.body and isinstance(x.body[-1], ast.Continue) and x.lineno < appends[0].lineno and x in lp.body:
+                    guarded = True
+        where = f"{sm.relpath}:{lp.lineno}"
+        ctx.check(ok_words and guarded, strm.fq, short(appends[0]), where, "__str__ (table-driven): under `set & (1 << i)` emits names[i] / 'not ' + names[i] according to `attributes & (1 << i)`",
+                  "__str__ (table-driven): the loop does not emit names[i] / 'not names[i]' under the test of bit i of _set_attributes / _attributes")
+        names = [e.value for e in tval.elts]
+        n_ok = 0
+        for name, b in sorted(bits.items(), key=lambda kv: kv[1]):
+            ok = b < len(names) and names[b] == name
+            n_ok += 1
+            ctx.check(ok, strm.fq, f"{tname}[{b}]", f"{sm.relpath}:{tval.lineno}", f"__str__: bit {b} -> '{name}' / 'not {name}'",
+                      f"__str__: the name table has '{names[b] if b < len(names) else '<missing>'}' at index {b}, but bit {b} is `{name}`: str() names the wrong attribute")
+        ctx.check(len(names) == len(bits), strm.fq, f"len({tname})", f"{sm.relpath}:{tval.lineno}", "name table has one entry per attribute bit", f"__str__: the name table has {len(names)} entries for {len(bits)} attribute bits")
+        return n_ok
+    return 0
+
+
 def r6_5(ctx):
     ctx.rule("R6.5", "one attribute<->bit mapping across the encodings: _Bit(n) descriptors, __init__ weight sums, __str__ bit tests and words, parse() vocabulary, _make_ansi_codes bit tests")
     bits = _bit_attrs(ctx)
@@ -801,6 +883,8 @@ def r6_5(ctx):
                         ctx.check(im & mask == im, strm.fq, f"group {norm(t)} contains {norm(nt)}", f"{sm.relpath}:{b.lineno}",
                                   "inner bit test lies inside its group mask",
                                   f"inner mask {im:#b} is not covered by its group mask {mask:#b}: attribute omitted from str()")
+    if count == 0:
+        count = _str_table_driven(ctx, strm, bits)
     ctx.floor(count, 13, "__str__ attribute word emitters")
     # (5) parse vocabulary
     parse = _method(ctx, "parse")
